@@ -881,6 +881,8 @@ pub struct Method<'a> {
 impl<'a> Method<'a> {
     /// Create Method object.
     pub fn new(path: Path, args: u8, serialized: bool, children: Vec<&'a dyn Aml>) -> Self {
+        // ArgCount is a 3-bit field.
+        assert!(args <= 7);
         Method {
             path,
             children,
